@@ -157,7 +157,17 @@ def run(ctx):
     ctx.table('C19.EF2.unguarded_under_dry_run', rep)
     ctx.note('Under -n ninja still creates output directories and writes / removes response files (listed in '
              'C19.EF2.unguarded_under_dry_run): outside the list of the property statement (sources, outputs, depfiles, logs); reported.')
-    ctx.floor('C19.EF2', 10)
+    # the -n listing is complete: no command owns the terminal in a dry run, so the console is never
+    # locked (a locked console coalesces the status lines of the other commands, i.e. drops them)
+    nlock = 0
+    for f2, e2 in calls_to(prog, 'LinePrinter::SetConsoleLocked'):
+        if const_value(e2['args'][0]) == 0:
+            continue
+        nlock += 1
+        guarded(ctx, 'C19.EF2', f2, e2, lambda a: mentions_field(a, 'BuildConfig::dry_run'), False,
+                'the console is locked only outside a dry run', construct='console-locked-under-dry-run')
+    ctx.check('C19.EF2', nlock >= 1, 'LinePrinter::SetConsoleLocked', 'console-lock:sites', 'src/status_printer.cc', '%d lock site(s)' % nlock)
+    ctx.floor('C19.EF2', 11)
 
     # ---- O1: dependency order of -t commands ------------------------------------------------------
     R('C19.O1', 'O', 'command listings print a statement\'s command only after the commands of '
